@@ -17,6 +17,8 @@ CLAIMED['C09'] = ("Bounded symbolic model checking of dsd dump/load dispatch: al
          "Trusted: go/ssa, symgo, z3; codec and gzip contract stubs (value-level fidelity of JSON/CBOR/MsgPack/YAML and real gzip are outside the claim); http.Header modelled as a map.")
 CLAIMED['C18'] = ("Bounded symbolic model checking of every name-to-path computation (fstree keys and query prefixes, DirStructure paths, updater scan roots and archive entry names) with the real path/filepath code: every name up to 6 (quick) / 8-9 (thorough) bytes; all file-system calls are recording stubs and the oracle is on the recorded paths; counterexamples are confirmed on real system calls (native replay in a sandbox under strace).",
          "Trusted: go/ssa, symgo, z3, the os/filepath.Walk/zip stubs; symlinks, Windows paths and the api bridge are outside the claim.")
+CLAIMED['C12'] = ("Bounded symbolic model checking of the API permission gate (authenticateRequest, checkAuth, checkAPIKey, checkSessionCookie, getEffectiveMethod): declared and granted permissions range over all int8 values, credential sources over 8 scenarios with symbolic header bytes and a symbolic clock; oracle is a reference decision procedure in the harness; refusals must produce exactly one 401/403/404/405/500 reply.",
+         "Trusted: go/ssa, symgo, z3; http.Header/Cookie/BasicAuth/rng/log stubs. mainHandler.handle (gorilla/mux, Origin/CORS), key-config parsing and server liveness are outside the claim.")
 NA = {}
 def check(pid):
     text, note = CLAIMED[pid]
